@@ -598,7 +598,7 @@ func (bc *BlockChain) verifyAllSideChainBlocks(chain types.Blocks) (err error) {
 	parents := []*types.Block{parent}
 	// The blocks of the side chain are stored only after all of them are verified. While they are executed,
 	// the already verified ones (the ancestors of the block in hand) are known through this view.
-	view := &sideChainView{BlockChain: bc, pending: make(map[common.Hash]*types.Block)}
+	view := &sideChainView{BlockChain: bc, first: firstNum.Uint64(), pending: make(map[common.Hash]*types.Block)}
 
 	//common var
 	var lookBackHeader *types.Header
@@ -727,6 +727,7 @@ func (bc *BlockChain) verifyAllSideChainBlocks(chain types.Blocks) (err error) {
 		//append parent for next block
 		parents = append(parents, b)
 		view.pending[b.Hash()] = b
+		view.chain = chain[:i+1]
 		if i <= maxCachesIndex {
 			caches = append(caches, stateDb.Copy())
 		}
@@ -736,11 +737,30 @@ func (bc *BlockChain) verifyAllSideChainBlocks(chain types.Blocks) (err error) {
 }
 
 // sideChainView is the chain as a block of a side chain under verification sees it: the BlockChain, plus the
-// verified blocks of that side chain which are not in the database yet. Only lookups by hash are extended
-// (a hash names one block whatever the canonical chain is); they consult the database first.
+// verified blocks of that side chain which are not in the database yet. Lookups by hash are extended (a hash
+// names one block whatever the canonical chain is; the database is consulted first), and VersionForRound
+// follows the block's own ancestry. Lookups by number alone stay those of the canonical chain.
 type sideChainView struct {
 	*BlockChain
 	pending map[common.Hash]*types.Block
+	first   uint64       // number of the side chain's first block
+	chain   types.Blocks // the verified blocks, chain[i] has number first+i
+}
+
+// VersionForRound takes the parameters from the block's own ancestor protocolRoundBack rounds back, as the
+// builder of the block did and as verifyAllSideChainBlocks does for the block itself (getCaravelParams):
+// from the side chain when that ancestor is one of its blocks (the canonical chain has another block at
+// that height, or none), from the canonical chain below the fork point.
+func (v *sideChainView) VersionForRound(r uint64) (*params.YouParams, error) {
+	if r >= v.first+protocolRoundBack && r-protocolRoundBack-v.first < uint64(len(v.chain)) {
+		version := v.chain[r-protocolRoundBack-v.first].CurrVersion()
+		yp, ok := params.Versions[version]
+		if !ok {
+			return nil, fmt.Errorf("YOUChain protocol version not exists. version: %d", version)
+		}
+		return &yp, nil
+	}
+	return v.BlockChain.VersionForRound(r)
 }
 
 func (v *sideChainView) GetBlock(hash common.Hash, number uint64) *types.Block {
